@@ -195,3 +195,13 @@ mod tests {
         );
     }
 }
+
+/// Verification wrapper around the private recombination stage (feature `verif-hooks` only).
+#[cfg(feature = "verif-hooks")]
+pub mod verif {
+    use crate::polynomial::Polynomial;
+    use num::BigInt;
+    pub fn get_factors_of_squarefree(a: &Polynomial<BigInt>) -> Vec<Polynomial<BigInt>> {
+        super::get_factors_of_squarefree(a)
+    }
+}
